@@ -65,6 +65,17 @@ def run(ctx):
                           "script": [{"op": "adopt", "p": "f"}, {"op": "adopt", "p": "c1"}, {"op": "accept"}, {"op": "wait_running"}, {"op": "adopt", "p": "c2", "ctx": "thread"},
                                      {"op": "wait_start", "p": "f"}, {"op": "wait_start", "p": "c1"}, {"op": "wait_start", "p": "c2"}, {"op": "park", "p": "c1"}, {"op": "park", "p": "c2"},
                                      {"op": "gc"}, {"op": "sleep", "ms": 30}, {"op": "gc"}, {"op": "end", "p": "f", "how": "exc:UserExc"}, {"op": "wait_end"}], "shape": "targeted-parked-gc"})
+    # a thread payload blocked in a synchronous execute() of a coroutine that does not end on its
+    # own, while shutdown() / a failure terminates the runtime: the coroutine payloads are still
+    # cancelled and accept() ends
+    for xf in ("asyncio", "trio"):
+        for trig in ("shutdown", "fail"):
+            extra.append({"seed": ctx.seed, "jitter": 0.0, "payloads": {"f": {"flavour": "trio"}, "h1": {"flavour": "threading"}, "a1": {"flavour": "asyncio", "cleanup": 2}, "t1": {"flavour": "trio", "cleanup": 1}, "x1": {"flavour": xf}},
+                          "script": [{"op": "adopt", "p": "f"}, {"op": "adopt", "p": "h1"}, {"op": "adopt", "p": "a1"}, {"op": "adopt", "p": "t1"}, {"op": "accept"}, {"op": "wait_running"},
+                                     {"op": "wait_start", "p": "f"}, {"op": "wait_start", "p": "h1"}, {"op": "wait_start", "p": "a1"}, {"op": "wait_start", "p": "t1"},
+                                     {"op": "execute", "p": "x1", "ctx": "payload:h1", "how": "val:x", "wait": False, "slow": 30.0}, {"op": "sleep", "ms": 100},
+                                     ({"op": "shutdown", "ctx": "thread", "wait": True} if trig == "shutdown" else {"op": "end", "p": "f", "how": "exc:UserExc"}), {"op": "wait_end", "timeout": 4.0}],
+                          "shape": "targeted-blocked-in-execute-" + trig})
     # payloads adopted while the runtime is already closing must be cancelled as well
     for trig in ([{"op": "end", "p": "f", "how": "exc:UserExc"}], [{"op": "sigint"}], [{"op": "shutdown", "ctx": "thread", "wait": False}]):
         for late in ("asyncio", "trio"):
